@@ -289,8 +289,19 @@ def context_phase(chk, dfs, scratch, quick, rnd):
         return dict(e="ctx", opts=c["opts"], obs=decode(o.out), listed=listed, rc=(o.rc or 0) + (o2.rc or 0), argv=argv_of(c["opts"]),
                     err=(o.err + o2.err).decode("latin1")[-160:])
     events = common.pmap(do, cases)
+    # the same from inside: hook events of `type F` (which drive was selected, through which volume the body was read)
+    import readtrace
+
+    def do_inside(ic):
+        i, c = ic
+        base = [dfs, "--file", p0, "--file", p1] + argv_of(c["opts"])
+        o, tev = readtrace.record(base + ["type", "--binary", "F"], scratch, "cx%d" % i, kinds={"select", "volread"})
+        return dict(e="session", opts=c["opts"], selects=[e["drive"] for e in tev if e["e"] == "select"], origins=[e["origin"] for e in tev if e["e"] == "volread"],
+                    argv=argv_of(c["opts"]), rc=o.rc if o.rc is not None else -9, obs={}, listed={}, err=o.err.decode("latin1")[-100:])
+    inside = common.pmap(do_inside, list(enumerate(cases[: (200 if quick else len(cases))])))
+    events += inside
     for e in events:
-        chk.case(("context", tuple(e["argv"])), nontrivial=len(e["argv"]) > 0)
+        chk.case(("context", e["e"], tuple(e["argv"])), nontrivial=len(e["argv"]) > 0)
     trace = os.path.join(scratch, "ctx-trace.ndjson")
     with open(trace, "w") as f:
         for e in events:
@@ -302,6 +313,11 @@ def context_phase(chk, dfs, scratch, quick, rnd):
         raise common.MachineryError("TraceContext did not consume the whole trace:\n" + tr.output[-3000:])
     for ln in sorted(tr.verdicts[-1]["bad"]):
         e = events[ln - 1]
+        if e["e"] == "session":
+            chk.violation("context-inside:%s" % "+".join(sorted({t["k"] for t in e["opts"]})),
+                          "dfs %s type F: select_drive was asked for %r and the body was read through volumes at %r; the options select %r"
+                          % (" ".join(e["argv"]), e["selects"], e["origins"], [t for t in e["opts"] if t["k"] in ("drive", "dir")]), dict(event=e))
+            continue
         chk.violation("context:%s" % "+".join(sorted({t["k"] for t in e["opts"]})),
                       "dfs %s type F / info *: read %r, listed %r (rc sum %s); the options select %r; stderr %r"
                       % (" ".join(e["argv"]), e["obs"], e["listed"], e["rc"], [t for t in e["opts"] if t["k"] in ("drive", "dir")], e["err"]), dict(event=e))
